@@ -154,41 +154,41 @@ func c04RunChain(t rt.TB, c c04Chain) {
 
 func c04ChainClass(c c04Chain) string { return "trace-mismatch-on-empty-source" }
 
-func TestC04_ChainsRandom(t *testing.T) {
-	rapid.Check(t, func(t *rapid.T) {
-		n := rapid.IntRange(2, 5).Draw(t, "chainLen")
-		links := make([]cat.Link, n)
-		for i := range links {
-			links[i] = genLink(t, true)
-		}
-		ends := []byte{'C', 'E'}
-		script := genScript(t, 8, 1, 4, ends)
-		if chainDiverges(links) {
-			return
-		}
-		c := c04Chain{Links: links, Script: script}
-		c04RunChain(t, c)
-		rt.Case(caseKey("chain", chainName(links), fmt.Sprint(links), script), true, fmt.Sprintf("chain-len:%d", n), func() any { return c })
-	})
+func TestC04_ChainsRandom(t *testing.T) { rapid.Check(t, propC04ChainsRandom) }
+
+func propC04ChainsRandom(t *rapid.T) {
+	n := rapid.IntRange(2, 5).Draw(t, "chainLen")
+	links := make([]cat.Link, n)
+	for i := range links {
+		links[i] = genLink(t, true)
+	}
+	ends := []byte{'C', 'E'}
+	script := genScript(t, 8, 1, 4, ends)
+	if chainDiverges(links) {
+		return
+	}
+	c := c04Chain{Links: links, Script: script}
+	c04RunChain(t, c)
+	rt.Case(caseKey("chain", chainName(links), fmt.Sprint(links), script), true, fmt.Sprintf("chain-len:%d", n), func() any { return c })
 }
 
 // TestC04_LongScripts: single rows over longer scripts and wider values.
-func TestC04_LongScripts(t *testing.T) {
-	rapid.Check(t, func(t *rapid.T) {
-		l := genLink(t, true)
-		row := cat.ByName(l.Op)
-		ends := []byte{'C', 'E', 0}
-		if row.Waits {
-			ends = []byte{'C', 'E'}
-		}
-		script := genScript(t, 40, -3, 6, ends)
-		if row.Diverges != nil && row.Diverges(l.P, scriptValues(script), scriptEnd(script)) {
-			return
-		}
-		c := c04Case{Op: l.Op, Variant: l.Variant, P: l.P, Script: script, Ctor: rt.CtorUnsafeCtx}
-		c04Run(t, c)
-		rt.Case(caseKey("model", l.Op, l.Variant, l.P, script), scriptValues(script) >= 1, "long:"+l.Op, func() any { return c })
-	})
+func TestC04_LongScripts(t *testing.T) { rapid.Check(t, propC04LongScripts) }
+
+func propC04LongScripts(t *rapid.T) {
+	l := genLink(t, true)
+	row := cat.ByName(l.Op)
+	ends := []byte{'C', 'E', 0}
+	if row.Waits {
+		ends = []byte{'C', 'E'}
+	}
+	script := genScript(t, 40, -3, 6, ends)
+	if row.Diverges != nil && row.Diverges(l.P, scriptValues(script), scriptEnd(script)) {
+		return
+	}
+	c := c04Case{Op: l.Op, Variant: l.Variant, P: l.P, Script: script, Ctor: rt.CtorUnsafeCtx}
+	c04Run(t, c)
+	rt.Case(caseKey("model", l.Op, l.Variant, l.P, script), scriptValues(script) >= 1, "long:"+l.Op, func() any { return c })
 }
 
 // ---- Pipe / PipeN / PipeOp / PipeOpN / manual nesting ---------------------------------------
